@@ -5,4 +5,7 @@ import "errors"
 var (
 	// ErrInvalidHeaderSize indicates the size in the header is incorrect
 	ErrInvalidHeaderSize = errors.New("headersize is incorrect")
+
+	// ErrInvalidBodySize indicates the body size in the header is out of range
+	ErrInvalidBodySize = errors.New("bodysize is incorrect")
 )
